@@ -586,14 +586,14 @@ BUFR_Template *bufr_load_template( const char *filename, BUFR_Tables *mtbls )
    debug = bufr_is_debug();
    if (debug)
       {
-      sprintf( errmsg, _("### Loading template file \"%s\"\n"), filename );
+      snprintf( errmsg, sizeof(errmsg), _("### Loading template file \"%s\"\n"), filename );
       bufr_print_debug( errmsg );
       }
 
    fp = fopen ( filename, "rb" ) ;
    if (fp == NULL) 
       {
-      sprintf( errmsg, _("Error: can't open template file %s\n"), filename );
+      snprintf( errmsg, sizeof(errmsg), _("Error: can't open template file %s\n"), filename );
       bufr_print_debug( errmsg );
       return NULL;
       }
@@ -616,7 +616,7 @@ BUFR_Template *bufr_load_template( const char *filename, BUFR_Tables *mtbls )
             {
             if (debug)
                {
-               sprintf( errmsg, _("### template has a local table B: %s\n"), tok );
+               snprintf( errmsg, sizeof(errmsg), _("### template has a local table B: %s\n"), tok );
                bufr_print_debug( errmsg );
                }
             bufr_load_l_tableB( tbls, tok );
@@ -630,7 +630,7 @@ BUFR_Template *bufr_load_template( const char *filename, BUFR_Tables *mtbls )
             {
             if (debug)
                {
-               sprintf( errmsg, _("### template has a master table B: %s\n"), tok );
+               snprintf( errmsg, sizeof(errmsg), _("### template has a master table B: %s\n"), tok );
                bufr_print_debug( errmsg );
                }
             bufr_load_m_tableB( tbls, tok );
@@ -644,7 +644,7 @@ BUFR_Template *bufr_load_template( const char *filename, BUFR_Tables *mtbls )
             {
             if (debug)
                {
-               sprintf( errmsg, _("### template has a local table D: %s\n"), tok );
+               snprintf( errmsg, sizeof(errmsg), _("### template has a local table D: %s\n"), tok );
                bufr_print_debug( errmsg );
                }
             bufr_load_l_tableD( tbls, tok );
@@ -658,7 +658,7 @@ BUFR_Template *bufr_load_template( const char *filename, BUFR_Tables *mtbls )
             {
             if (debug)
                {
-               sprintf( errmsg, _("### template has a master table D: %s\n"), tok );
+               snprintf( errmsg, sizeof(errmsg), _("### template has a master table D: %s\n"), tok );
                bufr_print_debug( errmsg );
                }
             bufr_load_m_tableD( tbls, tok );
@@ -686,7 +686,7 @@ BUFR_Template *bufr_load_template( const char *filename, BUFR_Tables *mtbls )
             {
             sprintf( errmsg, _("Error: require a master BUFR Tables\n") );
             bufr_print_debug( errmsg );
-            sprintf( errmsg, _("Error: can't load template file %s\n"), filename );
+            snprintf( errmsg, sizeof(errmsg), _("Error: can't load template file %s\n"), filename );
             bufr_print_debug( errmsg );
 
             bufr_free_tables( tbls );
@@ -817,7 +817,7 @@ BUFR_Template *bufr_load_template( const char *filename, BUFR_Tables *mtbls )
    tmplt->codets = sequence;
    if ((bufr_finalize_template( tmplt ) < 0)|| error)
       {
-      sprintf( errmsg, _("Error: Template file %s contains error(s)\n"), filename );
+      snprintf( errmsg, sizeof(errmsg), _("Error: Template file %s contains error(s)\n"), filename );
       bufr_print_debug( errmsg );
       bufr_print_debug( _("Error: Unable to create Template\n") );
       bufr_free_template( tmplt );
